@@ -208,6 +208,8 @@ func (e *engine) findFunc(pkgPath, name string) *ssa.Function {
 // ---------------------------------------------------------------------------
 // exploration
 
+var traceNext bool
+
 type workQueue struct {
 	mu      sync.Mutex
 	cond    *sync.Cond
@@ -389,7 +391,7 @@ func (e *engine) runPath(h *harnessSpec, fn *ssa.Function, prefix []int, solver 
 
 func (e *engine) runPathPinned(h *harnessSpec, fn *ssa.Function, prefix []int, solver *Solver, pin map[string]string) *run {
 	r := &run{
-		pin: pin,
+		pin: pin, traceCalls: traceNext,
 		e: e, h: h, solver: solver, prefix: prefix,
 		globals:  map[*ssa.Global]*value{},
 		initDone: map[*ssa.Package]bool{},
